@@ -58,10 +58,10 @@ def instantiate_function_templates(templates, cls, table, skip=()):
         name = t["qname"].split("::")[-1]
         if name in skip:
             continue
-        tb = dict(table)
+        tb = {k: v for k, v in table.items() if k in t["tparams"]}
         ret = subst(t["ret"], tb)
         ps = ", ".join(subst(p, tb) for p in t["ptypes"])
-        targs = ", ".join(tb.get(p, "double") for p in t["tparams"])
+        targs = ", ".join(table.get(p, "double") for p in t["tparams"])
         lines.append("template %s %s<%s>(%s)%s;" % (ret, t["qname"], targs, ps, " const" if t.get("const") else ""))
         done.append(t["key"])
     return "\n".join(lines) + "\n", done
